@@ -8,6 +8,7 @@ a minimal cost).  `sub` is any substitution function (default, dictionary based,
 they only differ in the numbers), `gap` any gap cost, `order` any preference order of the traceback that
 lists the three directions.
 -/
+import Dtaiverif.Props.PyBand
 import Dtaiverif.Proofs.NW
 
 namespace Dtai
